@@ -24,11 +24,12 @@ fn scenario(rng: &mut Rng, steps: usize, async_persist: bool, with_disc: bool) -
 		let connected = linked && (0..2).all(|i| net.nodes[i].node.list_channels().get(0).map(|c| c.is_usable).unwrap_or(false));
 		// targeted: reconnect while a monitor update is still in flight (retransmission must stay gated)
 		if with_disc && linked && rng.chance(1, 5) && (0..2).any(|i| !net.pending_updates(i, c).is_empty()) {
-			net.disconnect(0, 1); net.reconnect(0, 1);
+			net.disconnect(0, 1); net.trace.push(Obs::Event { node: 0, text: "DISCONNECT".into() });
+			net.reconnect(0, 1); net.trace.push(Obs::Event { node: 0, text: "RECONNECT".into() });
 			for _ in 0..6 { if let Some((i, j)) = net.any_queued() { net.deliver(i, j); } }
 			net.sample_balances(c); continue;
 		}
-		if with_disc && rng.chance(1, 14) { if linked { net.disconnect(0, 1); } else { net.reconnect(0, 1); } net.sample_balances(c); continue; }
+		if with_disc && rng.chance(1, 14) { if linked { net.disconnect(0, 1); net.trace.push(Obs::Event { node: 0, text: "DISCONNECT".into() }); } else { net.reconnect(0, 1); net.trace.push(Obs::Event { node: 0, text: "RECONNECT".into() }); } net.sample_balances(c); continue; }
 		match rng.below(16) {
 			0 | 1 | 2 if connected => {
 				let (a, b) = if rng.chance(1, 2) { (0, 1) } else { (1, 0) };
@@ -95,7 +96,7 @@ fn scenario(rng: &mut Rng, steps: usize, async_persist: bool, with_disc: bool) -
 		net.sample_balances(c);
 	}
 	// drain: reconnect, complete everything, deliver everything
-	if !net.connected.contains(&(0, 1)) { net.reconnect(0, 1); }
+	if !net.connected.contains(&(0, 1)) { net.reconnect(0, 1); net.trace.push(Obs::Event { node: 0, text: "RECONNECT".into() }); }
 	for i in 0..2 { net.set_mode(i, false); }
 	for _ in 0..40 {
 		for i in 0..2 { for id in net.pending_updates(i, c) { net.complete(i, c, id); } }
@@ -365,9 +366,6 @@ fn main() {
 					_ => {},
 				}
 			}
-		} else if with_disc {
-			// the two-party protocol monitor does not model reestablish/retransmission yet: oracles + mongate only
-			rec.discarded += 1;
 		} else {
 			let first: Vec<u64> = net.trace.iter().filter_map(|o| if let Obs::Balance { node, value_to_self_msat, .. } = o { Some((*node, *value_to_self_msat)) } else { None }).take(2).map(|x| x.1).collect();
 			if first.len() < 2 { rec.discarded += 1; continue; }
@@ -415,6 +413,10 @@ fn main() {
 						rec.case(&format!("recv {}", nm(*to)), &format!("ok {} {}", k2, if *errors == 0 { "agree" } else { "DISAGREE" }), &format!("recv:{}", k2), true);
 					},
 					Obs::Balance { node, chan: 0, value_to_self_msat } => rec.case(&format!("bal {}", nm(*node)), &value_to_self_msat.to_string(), "bal", false),
+					// disconnection (marker pushed by scenario()): everything queued is lost, both nodes pause the channel
+					Obs::Event { node: 0, text } if text == "DISCONNECT" => rec.case("disconnect", "ok", "disconnect", true),
+					// a node processes the peer's channel_reestablish (its retransmissions follow as release / raa ops)
+					Obs::Delivered { to, kind: "reestablish", chan: 0, errors, .. } => rec.case(&format!("reest {}", nm(*to)), if *errors == 0 { "ok" } else { "ERROR" }, "reest", true),
 					_ => {},
 				}
 			}
